@@ -7,8 +7,22 @@ From Coq Require Import Lia.
 (** * strings *)
 Lemma comp_okb_prop c : comp_okb c = true -> c <> "" /\ contains_char sep c = false.
 Proof.
-  unfold comp_okb. intros H. apply andb_true_iff in H. destruct H as [H1 H2].
+  unfold comp_okb. intros H. rewrite !andb_true_iff in H. destruct H as [[[H1 H2] _] _].
   apply negb_true_iff in H1, H2. apply String.eqb_neq in H1. now split.
+Qed.
+
+Lemma comp_okb_dots c : comp_okb c = true -> c <> "." /\ c <> "..".
+Proof.
+  unfold comp_okb. intros H. rewrite !andb_true_iff in H. destruct H as [[_ H3] H4].
+  apply negb_true_iff in H3, H4. apply String.eqb_neq in H3, H4. now split.
+Qed.
+
+Lemma filter_not_dot comps : comps_okb comps = true -> filter not_dot comps = comps.
+Proof.
+  induction comps as [|c l IH]; intros H; [reflexivity|]. cbn [comps_okb forallb] in H.
+  apply andb_true_iff in H. destruct H as [Hc Hl]. destruct (comp_okb_dots c Hc) as [Hd _].
+  cbn [filter]. unfold not_dot at 1. apply String.eqb_neq in Hd. rewrite Hd. cbn [negb].
+  f_equal. now apply IH.
 Qed.
 
 Lemma split_no_sep c : contains_char sep c = false -> split_char sep c = [c].
@@ -131,8 +145,10 @@ Lemma path_parent_child d n : d <> [] -> comps_okb d = true -> comp_okb n = true
   path_parent (child (dir_str d) n) = dir_str d.
 Proof.
   intros Hne Hok Hn. rewrite child_dir_str by assumption. unfold path_parent.
+  assert (Hall : comps_okb (d ++ [n]) = true) by (rewrite comps_okb_app, Hok; simpl; now rewrite Hn).
   rewrite split_dir_str.
-  - change ("" :: d ++ [n]) with (("" :: d) ++ [n]). rewrite removelast_last, join_root_cons by assumption.
+  - cbn [filter]. change (not_dot "") with true. cbv iota. rewrite (filter_not_dot _ Hall).
+    change ("" :: d ++ [n]) with (("" :: d) ++ [n]). rewrite removelast_last, join_root_cons by assumption.
     destruct (dir_str_facts d Hne Hok) as (H1 & _). now rewrite H1.
   - destruct d; [congruence | discriminate].
   - rewrite comps_okb_app, Hok. simpl. now rewrite Hn.
@@ -140,11 +156,17 @@ Qed.
 
 Lemma comp_okb_app a b : comp_okb a = true -> contains_char sep b = false -> comp_okb (a ++ b) = true.
 Proof.
-  intros Ha Hb. destruct (comp_okb_prop _ Ha) as [H1 H2]. unfold comp_okb.
-  apply andb_true_iff. split; apply negb_true_iff.
+  intros Ha Hb. destruct (comp_okb_prop _ Ha) as [H1 H2]. destruct (comp_okb_dots _ Ha) as [H3 H4].
+  unfold comp_okb. rewrite !andb_true_iff. repeat split; apply negb_true_iff.
   - apply String.eqb_neq. destruct a; [congruence | discriminate].
-  - clear H1 Ha. unfold sep in *. induction a as [|c a IH]; cbn [contains_char append] in *; [exact Hb|].
+  - clear H1 H3 H4 Ha. unfold sep in *. induction a as [|c a IH]; cbn [contains_char append] in *; [exact Hb|].
     apply orb_false_iff in H2. destruct H2 as [H2 H3]. rewrite H2. now apply IH.
+  - apply String.eqb_neq. intros C. destruct a as [|c [|c' a]]; [congruence| |discriminate C].
+    cbn [append] in C. destruct b; [|discriminate C]. now apply H3.
+  - apply String.eqb_neq. intros C. destruct a as [|c [|c' [|c'' a]]]; [congruence| | |discriminate C].
+    + cbn [append] in C. destruct b as [|x [|y b]]; try discriminate C.
+      injection C as -> ->. now apply H3.
+    + cbn [append] in C. destruct b; [|discriminate C]. now apply H4.
 Qed.
 
 (** * the walk *)
@@ -295,13 +317,26 @@ Proof.
   unfold root_clear in R. now destruct (candidate fs name "/").
 Qed.
 
+Lemma resolve_plain : forall l acc,
+  comps_okb l = true ->
+  fold_left (fun acc c => if String.eqb c ".." then removelast acc else acc ++ [c]) l acc = acc ++ l.
+Proof.
+  induction l as [|c l IH]; intros acc H; [now rewrite app_nil_r|].
+  cbn [comps_okb forallb] in H. apply andb_true_iff in H. destruct H as [Hc Hl].
+  destruct (comp_okb_dots c Hc) as [_ Hd]. apply String.eqb_neq in Hd.
+  cbn [fold_left]. rewrite Hd, (IH _ Hl), <- app_assoc. reflexivity.
+Qed.
+
 Lemma comps_of_dir_str comps : comps <> [] -> comps_okb comps = true -> comps_of (dir_str comps) = comps.
 Proof.
-  intros Hne Hok. unfold comps_of. change "/"%char with sep. rewrite split_dir_str by assumption.
-  cbn [filter String.eqb negb]. clear Hne. induction comps as [|x l IH]; [reflexivity|].
-  cbn [comps_okb forallb] in Hok. apply andb_true_iff in Hok. destruct Hok as [Hx Hl].
-  destruct (comp_okb_prop _ Hx) as [Hx1 _]. apply String.eqb_neq in Hx1.
-  cbn [filter]. rewrite Hx1. cbn [negb]. f_equal. now apply IH.
+  intros Hne Hok. unfold comps_of, raw_comps. change "/"%char with sep. rewrite split_dir_str by assumption.
+  cbn [filter String.eqb negb andb].
+  assert (F : filter (fun c => negb (String.eqb c "") && negb (String.eqb c ".")) comps = comps).
+  { clear Hne. induction comps as [|x l IH]; [reflexivity|].
+    cbn [comps_okb forallb] in Hok. apply andb_true_iff in Hok. destruct Hok as [Hx Hl].
+    destruct (comp_okb_prop _ Hx) as [Hx1 _]. destruct (comp_okb_dots _ Hx) as [Hx2 _].
+    apply String.eqb_neq in Hx1, Hx2. cbn [filter]. rewrite Hx1, Hx2. cbn [negb andb]. f_equal. now apply IH. }
+  rewrite F. unfold resolve. now rewrite resolve_plain.
 Qed.
 
 (** flagship: the model meets the executable specification on the guarded region *)
@@ -409,4 +444,43 @@ Lemma example_nearest :
   guard_abs fs_ex ["p"; "q"; "r"; "s"] "tasks" = true /\ root_clear fs_ex "tasks" = true /\
   load fs_ex "/" "tasks" "/p/q/r/s" = Loaded "/p/q/tasks.py" "/p/q" /\
   load fs_ex "/" "tasks" "/p" = Loaded "/p/tasks/__init__.py" "/p".
+Proof. repeat split. Qed.
+
+(** the parent rule, about the model's own answer: the reported project
+    directory is Path(file).parent for a module and one level further up for a
+    package *)
+Theorem parent_of_loaded fs cwd name comps f p :
+  guard_abs fs comps name = true ->
+  load fs cwd name (dir_str comps) = Loaded f p ->
+  (f = child p (name ++ ".py") /\ p = path_parent f) \/
+  (f = child (child p name) "__init__.py" /\ p = path_parent (path_parent f)).
+Proof.
+  intros G H. destruct (guard_abs_parts _ _ _ G) as (Hne & Hok & Hname & _).
+  destruct (loaded_is_nearest fs cwd name comps f p G H) as (j & Hj & Hc & _).
+  destruct (parent_rule fs name _ f p Hc) as [-> Hf].
+  set (d := firstn j comps) in *.
+  assert (Hd : d <> []).
+  { unfold d. destruct j as [|j]; [lia|]. now apply firstn_S_nonempty. }
+  assert (Hdok : comps_okb d = true) by now apply firstn_ok.
+  assert (Hpy : comp_okb (name ++ ".py") = true) by now apply comp_okb_app.
+  destruct Hf as [-> | ->].
+  - left. split; [reflexivity|]. now rewrite path_parent_child.
+  - right. split; [reflexivity|].
+    assert (Hd2 : d ++ [name] <> []) by (destruct d; discriminate).
+    assert (Hd2ok : comps_okb (d ++ [name]) = true) by (rewrite comps_okb_app, Hdok; simpl; now rewrite Hname).
+    rewrite (child_dir_str d name) by assumption.
+    rewrite (path_parent_child (d ++ [name])) by (assumption || reflexivity).
+    rewrite <- (child_dir_str d name) by assumption. now rewrite path_parent_child.
+Qed.
+
+(** F-C20c: a start path with a ".." component makes the walk examine the
+    directory *before* the ".." -- not an ancestor of the start -- first *)
+Definition fs_dotdot : fsys :=
+  mkFs [("/a/b/..", []); ("/a/b", ["tasks.py"]); ("/a", []); ("/", [])] [].
+
+Lemma dotdot_refutes :
+  load fs_dotdot "/" "tasks" "/a/b/.." = Loaded "/a/b/tasks.py" "/a/b" /\
+  abs_comps "/" "/a/b/.." = ["a"] /\
+  expected fs_dotdot "tasks" (abs_comps "/" "/a/b/..") = None /\
+  spec_ok fs_dotdot "/" "/a/b/.." "tasks" (obs_of (load fs_dotdot "/" "tasks" "/a/b/..")) = false.
 Proof. repeat split. Qed.
